@@ -21,7 +21,7 @@ def ref_apply(L, op):
     ks = [k for k, _ in L]
     if name == "append":
         return L + [(args[0], args[1])], ("ok", None)
-    if name == "extend":
+    if name in ("extend", "extend_md", "extend_dict", "extend_kw"):
         return L + list(args[0]), ("ok", None)
     if name == "setitem":
         k, v = args
@@ -57,7 +57,7 @@ def ref_apply(L, op):
         if k in ks:
             return L, ("ok", L[ks.index(k)][1])
         return L + [(k, d)], ("ok", d)
-    if name == "update":
+    if name in ("update", "update_dict", "update_kw"):
         for k, v in args[0]:
             L, _ = ref_apply(L, ("setitem", k, v))
         return L, ("ok", None)
@@ -91,6 +91,16 @@ def real_apply(m, op):
             r = m.append(*args)
         elif name == "extend":
             r = m.extend(list(args[0]))
+        elif name == "extend_md":
+            r = m.extend(type(m)(list(args[0])))        # another multi-dict of the same class as argument
+        elif name == "extend_dict":
+            r = m.extend(dict(args[0]))
+        elif name == "extend_kw":
+            r = m.extend(**dict(args[0]))
+        elif name == "update_dict":
+            r = m.update(dict(args[0]))
+        elif name == "update_kw":
+            r = m.update(**dict(args[0]))
         elif name == "setitem":
             m[args[0]] = args[1]
             r = None
@@ -212,6 +222,8 @@ def op_universe():
             ops.append(("insert_after", k, ("a", 4), inst))
     ops += [("pop0",), ("popitem",), ("clear",)]
     ops += [("extend", (("a", 1), ("b", 2), ("a", 2))), ("update", (("b", 7), ("a", 8), ("b", 9)))]
+    ops += [("extend_md", (("a", 1), ("b", 2), ("a", 2))), ("extend_md", (("b", 3),)), ("extend_dict", (("a", 5), ("b", 6))),
+            ("extend_kw", (("b", 7), ("a", 8))), ("update_dict", (("a", 5), ("b", 6))), ("update_kw", (("b", 7),))]
     for i in (0, 1, -1, -2, 5):
         ops.append(("insert", i, (("a", 6),)))
         ops.append(("insert", i, (("b", 6), ("a", 7))))
@@ -227,7 +239,8 @@ def run_history(cls, hist):
         for i, op in enumerate(hist):
             L2, want = ref_apply(L, op)
             got = real_apply(m, op)
-            if want[0] == "ok" and op[0] in ("append", "extend", "setitem", "delitem", "update", "discard", "clear",
+            if want[0] == "ok" and op[0] in ("append", "extend", "extend_md", "extend_dict", "extend_kw", "update_dict", "update_kw",
+                                             "setitem", "delitem", "update", "discard", "clear",
                                              "insert", "insert_before", "insert_after"):
                 want = ("ok", None)
             if got != want:
